@@ -400,6 +400,15 @@ MUTANTS = [
 
     def _nested(data, *args, **kwargs):
         return"""),
+    dict(prop="C09", name="empty-setitems-drops-its-target(seeded C09-c re-created on FX16)", file="fickling/fickle.py",
+         old="""            # not emit an `.update({})` call on it
+            interpreter.stack.append(pydict)
+            return""",
+         new="""            # not emit an `.update({})` call on it
+            return"""),
+    dict(prop="C05", name="dict-opcode-pairs-not-reversed(seeded C05-c)", file="fickling/fickle.py",
+         old="ast.Dict(keys=keys[::-1], values=values[::-1])",
+         new="ast.Dict(keys=keys, values=values)"),
     # ---- C14
     dict(prop="C14", name="delitem-keeps-ast", file="fickling/fickle.py",
          old="""        del self._opcodes[index]
